@@ -149,7 +149,7 @@ CHECKS = {
         note="Trusted: the translator (validated by running generated definitions against the real methods on the grid), Python comparison reflection rule; == level laws under coherence of points.",
         design="5/C15"),
     "C16": dict(
-        technique="Lean 4 proof: model of the process-global option state with try/finally reset and of the recursive (de)serialization hooks; reset_after for every outcome, output-shape theorems by induction on the object tree + differential correspondence on call sequences with injected failures",
+        technique="Lean 4 proof: model of the process-global option state with try/finally reset and of the recursive (de)serialization hooks; reset_after for every outcome, output-shape theorems by induction on the object tree + differential correspondence on call sequences with injected failures; `as_dict` / `as_obj` (slot assignments, try / finally reset, body as a parameter) are REGENERATED from serialize.py on every run (py2lean_s) and the explicit try/finally model is proved equal to them (GenBridgeSerOpts.as_dict_eq_gen, as_obj_eq_gen, reset_after_gen; optional obligation)",
         text="Theorems: globals are default after every call whether it returned or raised at any nested object; each call's output depends only on its own arguments; with key sorting every nested mapping "
              "lists the tag first and the rest sorted; with tag suppression no nested mapping carries a tag; by default every object except No* placeholders / index references does; explorer dialect lists child fields.",
         note="Trusted: mashumaro hook protocol; model tied by correspondence (sequences of 2-6 calls, every option subset, failures at every nested position).",
